@@ -7956,8 +7956,8 @@ void CallasDonnerhackeFinneyShawThayerRFC4880::S2KCompute
 	// Salted S2K is exactly like Simple S2K, except that the input to the
 	// hash function(s) consists of the 8 octets of salt from the S2K
 	// specifier, followed by the passphrase.
-	if (salt.size() != 8)
-		return;
+	if ((salt.size() != 8) && (salt.size() != 0))
+		return; // salted modes need 8 octets, Simple S2K has no salt
 	// [...]
 	// Iterated-Salted S2K hashes the passphrase and salt data multiple
 	// times. The total number of octets to be hashed is specified in the
